@@ -67,9 +67,10 @@ theorem txAccepted_guards {K : Keys} {s : State} (h : RejInv K s) (cur : Nat) (i
       rw [hw4] at this; cases this
     | some t => exact ⟨first, rest, r, t, rfl, hr, ht⟩
 
-/-- `txAcceptedAux` with the three reject-related panic branches replaced by an arbitrary `bad` -/
+/-- `txAcceptedAux` with the three reject-related panic branches replaced by an arbitrary `bad` (the exhausted iteration
+    budget — fuel 0 — is NOT one of them: it stays the flag and is not shown unreachable) -/
 def txAcceptedAuxP (K : Keys) (minFee : Nat) (bad : State → State) : Nat → State → List Nat → Nat → State
-  | 0, s, _, _ => s
+  | 0, s, _, _ => { s with panicked := true }
   | fuel + 1, s, recs, delidx =>
     match recs[delidx]? with
     | none => s
@@ -182,7 +183,7 @@ theorem txAcceptedAuxP_indep {K : Keys} {W : Tx → Prop} {rank : TxId → Nat} 
 
 theorem txAccepted_no_rej_panic {K : Keys} {W : Tx → Prop} {rank : TxId → Nat} (U : Univ K W rank) (mf : Nat)
     (bad : State → State) (s : State) (b : Nat) (hI : InvR K W s) (h : RejInv K s) :
-    txAccepted K mf s b = txAcceptedAuxP K mf bad (2 * (s.rej.length + s.pool.length) + 4) s [b] 0 := by
+    txAccepted K mf s b = txAcceptedAuxP K mf bad (txAccFuel s) s [b] 0 := by
   unfold txAccepted
   rw [txAcceptedAux_eq_P]
   exact txAcceptedAuxP_indep U mf _ bad _ s _ _ hI h
